@@ -125,8 +125,8 @@ impl Store {
 //@ rewrite-re X7 `(?s)fn recover_one\(\s*options: &LsmtkOptions,\s*number: u64,\s*mani: &mut Manifest,\s*\)` => `fn recover_one(&mut self, options: &Options, number: u64)`
 //@ rewrite X7 `LOG_FILE(&options.path, number)` => `self.log_file(options, number)`
 //@ rewrite X7 `TEMP_ROOT(&options.path).join(format!("log.{number}.sst"))` => `self.temp_file(options, number)`
-//@ rewrite X7 `out.exists()` => `self.temp_exists(&out)`
-//@ rewrite-re X7 `\bremove_file\(&?out\)` => `self.remove_temp(&out)`
+//@ rewrite-re? X7 `\bout\.exists\(\)` => `self.temp_exists(&out)`
+//@ rewrite-re? X7 `\bremove_file\(&?out\)` => `self.remove_temp(&out)`
 //@ rewrite X7 `sst::SstBuilder::new(options.sst.clone(), &out)?` => `self.new_builder(options, &out)?`
 //@ rewrite X7 `sst::log::log_to_builder(options.log.clone(), &log_path, sst_builder)?` => `self.log_to_builder(options, &log_path, sst_builder)?`
 //@ rewrite-re X7 `log_path\.file_name\(\)` => `self.log_file_name(&log_path)`
